@@ -311,8 +311,52 @@ func (g *seqGen) afterRetBlock(keys []int) string {
 	return " !{ " + strings.Join(ops, " ; ") + " }"
 }
 
+// staleLoad: a key whose entry has expired but is still in the table is loaded, and the key is written, computed or
+// invalidated while that load runs (inside the loader, or between its return and the installation): the load's result must
+// not replace the write (C09), whatever the table held before
+func (g *seqGen) staleLoad() {
+	k := g.key()
+	g.add("set %d %d", k, g.val())
+	d := g.ttl + int64(g.r.intn(3))
+	if d <= 0 {
+		d = 1
+	}
+	if g.clock > math.MaxInt64-d-(1<<41) {
+		return
+	}
+	g.clock += d
+	g.add("adv %d", d)
+	var w string
+	switch g.r.intn(6) {
+	case 0, 1:
+		w = fmt.Sprintf("set %d %d", k, g.val())
+	case 2:
+		w = fmt.Sprintf("sia %d %d", k, g.val())
+	case 3:
+		w = fmt.Sprintf("compute %d w%d w%d", k, g.val(), g.val())
+	case 4:
+		w = fmt.Sprintf("cia %d w%d", k, g.val())
+	default:
+		w = fmt.Sprintf("inval %d", k)
+	}
+	op := "load"
+	if g.withRef && g.r.chance(0.3) {
+		op = "refresh"
+	}
+	if g.r.chance(0.6) {
+		g.add("%s %d ok:%d/ok:%d { %s }", op, k, g.val(), g.val(), w)
+	} else {
+		g.add("%s %d ok:%d/ok:%d !{ %s }", op, k, g.val(), g.val(), w)
+	}
+	g.add("get %d", k)
+}
+
 func (g *seqGen) loaderOp() {
 	r := g.r
+	if g.withExp && !g.avoidK1 && r.chance(0.12) {
+		g.staleLoad()
+		return
+	}
 	switch r.intn(10) {
 	case 0, 1, 2, 3:
 		k := g.key()
